@@ -249,6 +249,14 @@ static void gen_conf_file(plan_t *p, rng_t *r, const char *name, int allow_exec,
                 default: add("x %%get(k%d) y\n", rng_range(r, 0, 4)); break;
                 }
             }
+            else if (c < 79) {
+                /* directive lines in odd dress: blanks behind the per cent sign, a quote in front of the keyword (closed or not), and an
+                   argument that gets shorter when it is expanded, so that what was there before lies behind the new end of the line */
+                static const char *gap[] = { " ", "  ", "\t", "" };
+                static const char *qt[] = { "\"", "'", "" };
+                static const char *shr[] = { "${NOSUCH}", "$NOSUCH", "%get(nokey)", "$(EMPTY)", "${NOSUCH}${NOSUCH_TOO} x", "$NOSUCH missing.cfg", "${NOSUCH}\"", "" };
+                add("%%%s%sinclude%s %s\n", gap[rng_below(r, 4)], qt[rng_below(r, 3)], rng_chance(r, 1, 4) ? qt[rng_below(r, 2)] : "", shr[rng_below(r, 8)]);
+            }
             else if (c < 80) add("%%xb%d(arg %d)\n", rng_range(r, 7, 12), q);
             else if (c < 83) add("%%nosuchbuiltin(a b)\n");
             else if (c < 86) add("v $V1 ${HOME} $(EMPTY) $NOSUCH ~ ~/x \\t\\n \n");
